@@ -1,8 +1,8 @@
-(* C08 — bytes gained by growing a stream read as zero, whatever was there before.  Statements are printed by Check below and compared with C08.expected.  PARTIAL: at the handle level set_len refines 'truncate or pad with zeros' given the store's resize contract; Store.resize itself is proved to zero every gained byte, with no hypothesis on what the sectors held before, for large streams (growth within the last sector, into reused sectors, by appending; shrink-then-grow) and for small streams that need no new mini sector; other streams are untouched.  NOT proved: growth of a small stream that allocates new mini sectors, and the mini <-> regular migrations; those, and whole histories, are checked on the real crate against a byte vector for every buffer size, and by lockstep with the model, which keeps stale sector bytes. *)
+(* C08 — bytes gained by growing a stream read as zero, whatever was there before.  Statements are printed by Check below and compared with C08.expected.  PARTIAL (store layer now also with allocation and the migrations, proofs/StoreAlloc.v; not covered: growth of the FILE - new FAT sectors - inside those cases, the first MiniFAT of a file, failure atomicity): at the handle level set_len refines 'truncate or pad with zeros' given the store's resize contract; Store.resize itself is proved to zero every gained byte, with no hypothesis on what the sectors held before, for large streams (growth within the last sector, into reused sectors, by appending; shrink-then-grow) and for small streams that need no new mini sector; other streams are untouched.  NOT proved: growth of a small stream that allocates new mini sectors, and the mini <-> regular migrations; those, and whole histories, are checked on the real crate against a byte vector for every buffer size, and by lockstep with the model, which keeps stale sector bytes. *)
 From Cfb.model Require Import Base Names DirEnt State Alloc Dir Mini Store Handle Open Cfb.
 From Cfb.gen Require Import Consts.
 From Cfb.spec Require Import VecSpec.
-From Cfb.proofs Require Import HandleProofs ChainProofs StoreProofs StoreMiniProofs.
+From Cfb.proofs Require Import HandleProofs ChainProofs StoreProofs StoreMiniProofs StoreAlloc.
 Set Printing Width 110.
 
 (* set_len_post: the abstract vector becomes takeN n A ++ repeatN 0 (n - lenN A), cursor clamped *)
@@ -88,3 +88,75 @@ Theorem C08_small_stream_read_back : ltac:(let t := type of read_data_small in e
 Proof. exact read_data_small. Qed.
 Check C08_small_stream_read_back.
 Print Assumptions C08_small_stream_read_back.
+
+(* growth that needs MORE mini sectors - reused from the mini free list and / or appended within retained capacity, in any mix: content becomes V ++ zeros (stale bytes of reused mini sectors are never visible), the store invariant SWf is kept, every other stream keeps its content *)
+Theorem C08_small_stream_grow_with_new_mini_sectors_reads_zero : ltac:(let t := type of resize_small_alloc in exact t).
+Proof. exact resize_small_alloc. Qed.
+Check C08_small_stream_grow_with_new_mini_sectors_reads_zero.
+Print Assumptions C08_small_stream_grow_with_new_mini_sectors_reads_zero.
+
+(* write-back that grows a small stream into new mini sectors: content = spliceN V off buf *)
+Theorem C08_small_stream_write_with_new_mini_sectors : ltac:(let t := type of write_data_small_alloc in exact t).
+Proof. exact write_data_small_alloc. Qed.
+Check C08_small_stream_write_with_new_mini_sectors.
+Print Assumptions C08_small_stream_write_with_new_mini_sectors.
+
+(* read_data afterwards returns the old bytes, then zeros *)
+Theorem C08_and_reads_back : ltac:(let t := type of resize_small_alloc_reads in exact t).
+Proof. exact resize_small_alloc_reads. Qed.
+Check C08_and_reads_back.
+Print Assumptions C08_and_reads_back.
+
+(* case 1a: a stream without a chain becomes n zero bytes in the mini stream *)
+Theorem C08_first_resize_of_an_empty_stream_small : ltac:(let t := type of resize_empty_small in exact t).
+Proof. exact resize_empty_small. Qed.
+Check C08_first_resize_of_an_empty_stream_small.
+Print Assumptions C08_first_resize_of_an_empty_stream_small.
+
+(* case 1b: directly into regular sectors (taken from the free stack) *)
+Theorem C08_first_resize_of_an_empty_stream_large : ltac:(let t := type of resize_empty_big in exact t).
+Proof. exact resize_empty_big. Qed.
+Check C08_first_resize_of_an_empty_stream_large.
+Print Assumptions C08_first_resize_of_an_empty_stream_large.
+
+(* migration at the 4096-byte cutoff by set_len: content V ++ zeros, the mini chain released (trailing MiniFAT trim), others kept *)
+Theorem C08_small_stream_migrating_to_regular_sectors_reads_zero : ltac:(let t := type of resize_small_to_big in exact t).
+Proof. exact resize_small_to_big. Qed.
+Check C08_small_stream_migrating_to_regular_sectors_reads_zero.
+Print Assumptions C08_small_stream_migrating_to_regular_sectors_reads_zero.
+
+(* the same by a write-back *)
+Theorem C08_small_stream_migrating_by_write : ltac:(let t := type of write_data_small_to_big in exact t).
+Proof. exact write_data_small_to_big. Qed.
+Check C08_small_stream_migrating_by_write.
+Print Assumptions C08_small_stream_migrating_by_write.
+
+(* a large stream shrunk below 4096 bytes moves into the mini stream with content takeN n V *)
+Theorem C08_large_stream_migrating_back : ltac:(let t := type of resize_big_to_small in exact t).
+Proof. exact resize_big_to_small. Qed.
+Check C08_large_stream_migrating_back.
+Print Assumptions C08_large_stream_migrating_back.
+
+(* when the mini-stream container grows by a regular sector the new mini sector reads as zeros and the existing ones keep their bytes *)
+Theorem C08_new_mini_sector_in_an_extended_container_reads_zero : ltac:(let t := type of allocate_mini_extends_container in exact t).
+Proof. exact allocate_mini_extends_container. Qed.
+Check C08_new_mini_sector_in_an_extended_container_reads_zero.
+Print Assumptions C08_new_mini_sector_in_an_extended_container_reads_zero.
+
+(* the resize clause of the store contract that the handle theorems (C06) assume, for the cases above, over content = empty / small / large *)
+Theorem C08_resize_contract_in_the_allocating_cases : ltac:(let t := type of resize_contract_alloc in exact t).
+Proof. exact resize_contract_alloc. Qed.
+Check C08_resize_contract_in_the_allocating_cases.
+Print Assumptions C08_resize_contract_in_the_allocating_cases.
+
+(* the write clause *)
+Theorem C08_write_contract_in_the_allocating_cases : ltac:(let t := type of write_data_contract_alloc in exact t).
+Proof. exact write_data_contract_alloc. Qed.
+Check C08_write_contract_in_the_allocating_cases.
+Print Assumptions C08_write_contract_in_the_allocating_cases.
+
+(* non-vacuity: a reused mini sector's old bytes read back as zeros on a concrete state *)
+Theorem C08_stale_bytes_example : ltac:(let t := type of StoreAlloc.Examples.stale_bytes_not_visible in exact t).
+Proof. exact StoreAlloc.Examples.stale_bytes_not_visible. Qed.
+Check C08_stale_bytes_example.
+Print Assumptions C08_stale_bytes_example.
